@@ -57,6 +57,8 @@ pub struct Cx<'k> {
     pub counters: Vec<(&'static str, u64)>,
     pub known: &'k [String],
     pub tier: Tier,
+    /// print notes as they are made (diagnosing crashes in replay mode: VMV_TRACE=1)
+    pub trace: bool,
 }
 
 impl<'k> Cx<'k> {
@@ -70,6 +72,7 @@ impl<'k> Cx<'k> {
             counters: Vec::new(),
             known,
             tier,
+            trace: verbose && std::env::var_os("VMV_TRACE").is_some(),
         }
     }
     #[inline]
@@ -111,6 +114,9 @@ macro_rules! note {
     ($cx:expr, $($arg:tt)*) => {
         if $cx.verbose {
             use std::fmt::Write as _;
+            if $cx.trace {
+                eprintln!("trace: {}", format!($($arg)*));
+            }
             let _ = write!($cx.desc, $($arg)*);
             $cx.desc.push_str("; ");
         }
